@@ -82,7 +82,15 @@ func (a *ForwardAuth) Authorize(r *http.Request, requestPath string, body []byte
 
 	client := a.Client
 	if client == nil {
-		client = &http.Client{Timeout: timeout}
+		client = &http.Client{
+			Timeout: timeout,
+			// A redirect is not an allow: 3xx must fail closed like every other
+			// non-2xx answer instead of being followed to wherever it points
+			// (with the caller's headers and body).
+			CheckRedirect: func(*http.Request, []*http.Request) error {
+				return http.ErrUseLastResponse
+			},
+		}
 	}
 	resp, err := client.Do(req)
 	if err != nil {
